@@ -25,6 +25,6 @@ cp ${SEEDDIR:-seed}/README.md /verif/seeded/$NAME/README.md 2>/dev/null
 cd /verif
 RES=$(SHOW=${SHOW:-3} bin/mutant.sh seeded/$NAME/patch.diff "$@" 2>&1)
 echo "$RES" | cut -c1-300
-echo "$RES" | grep '^== ' > /verif/seeded/$NAME/check_results.txt
+echo "$RES" | grep -a '^== ' > /verif/seeded/$NAME/check_results.txt
 echo "suite: $SUITE" >> /verif/seeded/$NAME/check_results.txt
 echo "demo: with change rc=$RC_WITH, without rc=$RC_WITHOUT (cargo test -p $CRATE --offline --test seed_demo $DEMOARGS)" >> /verif/seeded/$NAME/check_results.txt
